@@ -55,7 +55,7 @@ def build_pre(s: CM.S, backend_cls):
         cols, kinds = ["grp" if s.grouped_now else "vis", "hid" if s.c1_hidden else "vis", "hid"], ["ew", s.k1, "ew"]
         c0, c1 = 0, 1
     ft = {"ew": Ftype.ELEMENT_WISE, "win": Ftype.WINDOW, "agg": Ftype.AGGREGATE}
-    pre = TS.Pre(TS.Skeleton(cols), "t", backend_cls=backend_cls, ftypes=[ft[k] for k in kinds], limit=5 if s.limit else 0, is_filtered=s.filtered)
+    pre = TS.Pre(TS.Skeleton(cols), "t", backend_cls=backend_cls, ftypes=[ft[k] for k in kinds], limit=5 if s.limit else TS.no_limit(), is_filtered=s.filtered)
     if s.agg == "grouped":
         pre.group_by = (pre.uuids[0],)
     pre.c0, pre.c1 = c0, c1
@@ -157,7 +157,7 @@ def classify_sql(e):
 def j6(cache, state):
     table, q, sqa_expr = state
     obs = [
-        ("J6: Cache.limit != 0  <=>  the SELECT has a LIMIT", z3.BoolVal((cache.limit != 0) == (q.limit is not None))),
+        ("J6: Cache records a limit  <=>  the SELECT has a LIMIT", z3.BoolVal((cache.limit != TS.no_limit()) == (q.limit is not None))),
         ("J6: Cache.group_by non-empty  <=>  the SELECT has a GROUP BY", z3.BoolVal(bool(cache.group_by) == bool(q.group_by))),
         ("J6: Cache.is_filtered  <=>  the SELECT has a WHERE / HAVING", z3.BoolVal(bool(cache.is_filtered) == bool(q.where or q.having))),
     ]
@@ -498,7 +498,7 @@ def j6_base_run(carve):
     for be, t in (("polars", pdt.Table(df, name="t")), ("sqlite", pdt.Table("t", pdt.SqlAlchemy(eng)))):
         for via, c in (("Table()", t._cache), ("Cache.from_ast", TS.Cache.from_ast(t._ast))):
             n += 1
-            if c.limit != 0 or c.group_by or c.is_filtered or c.partition_by:
+            if c.limit not in (0, None) or c.group_by or c.is_filtered or c.partition_by:
                 bad.append(f"[{be}] {via}: a source table starts with limit={c.limit}, group_by={c.group_by}, is_filtered={c.is_filtered}, partition_by={c.partition_by}")
             if any(col.ftype() != Ftype.ELEMENT_WISE for col in c.cols.values()):
                 bad.append(f"[{be}] {via}: a source column is not element-wise")
